@@ -28,8 +28,66 @@ func init() { props["C06"] = runC06 }
 var logKey06 = query_context.RegKey()
 
 type log06 struct {
-	mu sync.Mutex
-	ev []string
+	mu   sync.Mutex
+	ev   []string
+	pend []*pend06 // continuations that wrappers of kind 5/6 will run after their Exec returned
+}
+
+// pend06: a continuation kept by a wrapper that has already returned. Its
+// goroutine exists since the wrapper's Exec and runs the continuation on a
+// copy of the query (own log) once the harness closes release.
+type pend06 struct {
+	release chan struct{}
+	done    chan struct{}
+	log     *log06
+	err     error
+}
+
+func (l *log06) addPend(p *pend06) { l.mu.Lock(); l.pend = append(l.pend, p); l.mu.Unlock() }
+
+func (l *log06) takePend() []*pend06 {
+	l.mu.Lock()
+	defer l.mu.Unlock()
+	p := l.pend
+	l.pend = nil
+	return p
+}
+
+// drain06 lets the kept continuations registered in l run, one after the other
+// in registration order, each to completion (and then, recursively, the ones
+// it registered itself), and returns what they logged:
+// `{`, events, [`ERR`,] nested blocks, `}` per continuation. The blocks of a
+// run that ended with an error are run too but not reported.
+func drain06(l *log06) []string {
+	var out []string
+	for _, p := range l.takePend() {
+		close(p.release)
+		<-p.done
+		nested := drain06(p.log)
+		out = append(out, "{")
+		out = append(out, p.log.ev...)
+		if p.err != nil {
+			out = append(out, "ERR")
+		} else {
+			out = append(out, nested...)
+		}
+		out = append(out, "}")
+	}
+	return out
+}
+
+// later06 starts the goroutine that will run next on a copy of q after the
+// harness released it, and registers it in q's log.
+func later06(q *query_context.Context, next sequence.ChainWalker) {
+	c := q.Copy()
+	p := &pend06{release: make(chan struct{}), done: make(chan struct{}), log: &log06{}}
+	c.StoreValue(logKey06, p.log)
+	go func() {
+		defer close(p.done)
+		<-p.release
+		p.err = next.ExecNext(context.Background(), c)
+	}()
+	logOf06(q).addPend(p)
 }
 
 func (l *log06) add(s string) { l.mu.Lock(); l.ev = append(l.ev, s); l.mu.Unlock() }
@@ -173,9 +231,16 @@ func (w wrap06) Exec(ctx context.Context, q *query_context.Context, next sequenc
 			return err
 		}
 		return next.ExecNext(ctx, q)
+	case 5: // returns at once, runs the continuation later (as cache's lazy update does)
+		later06(q, next)
+		return nil
+	case 6: // runs the continuation now and, on a copy taken before, once more after it returned
+		later06(q, next)
+		return next.ExecNext(ctx, q)
 	default: // concurrently, on two copies with their own logs
 		var wg sync.WaitGroup
 		logs := [2]*log06{{}, {}}
+		var failed [2]bool
 		for i := 0; i < 2; i++ {
 			c := q.Copy()
 			c.StoreValue(logKey06, logs[i])
@@ -185,6 +250,7 @@ func (w wrap06) Exec(ctx context.Context, q *query_context.Context, next sequenc
 				nx := next // each goroutine runs its own copy of the continuation value
 				if err := nx.ExecNext(ctx, c); err != nil {
 					logs[i].add("ERR")
+					failed[i] = true
 				}
 			}(i)
 		}
@@ -199,6 +265,17 @@ func (w wrap06) Exec(ctx context.Context, q *query_context.Context, next sequenc
 			l.add(e)
 		}
 		l.add("]")
+		// continuations kept by wrappers inside the copies' runs: handed to the
+		// caller's log (a copy that failed: run, not reported)
+		for i := 0; i < 2; i++ {
+			if failed[i] {
+				drain06(logs[i])
+				continue
+			}
+			for _, p := range logs[i].takePend() {
+				l.addPend(p)
+			}
+		}
 		return nil
 	}
 }
@@ -276,7 +353,7 @@ func (r *Run) genSeq06(idx int, depthOK bool) []rule06 {
 		case k < 16 && idx > 0:
 			rl.act = fmt.Sprintf("G%d", r.Rng.Intn(idx))
 		default:
-			rl.act = fmt.Sprintf("w%d", r.Rng.Intn(5)*1000+r.Rng.Intn(20))
+			rl.act = fmt.Sprintf("w%d", r.Rng.Intn(7)*1000+r.Rng.Intn(20))
 		}
 		out = append(out, rl)
 	}
@@ -317,7 +394,7 @@ func (r *Run) genRepeat06(idx int) []rule06 {
 		for j := 2 + r.Rng.Intn(3); j > 0; j-- {
 			act := r.plainAct06(25)
 			if r.Rng.Intn(8) == 0 {
-				acts := []string{"A", "r", "R3", fmt.Sprintf("w%d", []int{0, 2, 3, 4}[r.Rng.Intn(4)]*1000+r.Rng.Intn(20))}
+				acts := []string{"A", "r", "R3", fmt.Sprintf("w%d", []int{0, 2, 3, 4, 5, 6}[r.Rng.Intn(6)]*1000+r.Rng.Intn(20))}
 				if idx > 0 {
 					acts = append(acts, fmt.Sprintf("J%d", r.Rng.Intn(idx)), fmt.Sprintf("G%d", r.Rng.Intn(idx)))
 				}
@@ -386,7 +463,7 @@ func (r *Run) genIfElse06(idx int) []rule06 {
 		}
 		act := r.plainAct06(25)
 		if r.Rng.Intn(6) == 0 {
-			acts := []string{"A", "r", "R3", fmt.Sprintf("w%d", []int{0, 2, 3, 4}[r.Rng.Intn(4)]*1000+r.Rng.Intn(20))}
+			acts := []string{"A", "r", "R3", fmt.Sprintf("w%d", []int{0, 2, 3, 4, 5, 6}[r.Rng.Intn(6)]*1000+r.Rng.Intn(20))}
 			if idx > 0 {
 				acts = append(acts, fmt.Sprintf("J%d", r.Rng.Intn(idx)), fmt.Sprintf("G%d", r.Rng.Intn(idx)))
 			}
@@ -411,8 +488,22 @@ func seqOp06(s []rule06) string {
 // ---- reference interpreter (continuation semantics from the property text)
 
 type st06 struct {
-	log  []string
-	resp int // -1 none
+	log   []string
+	resp  int      // -1 none
+	later []string // blocks logged by continuations that were kept and run after their wrapper returned
+}
+
+// refLater06: a kept continuation is the same remaining rules whenever it is
+// run: on a copy of the query as it was when the wrapper was called, own log.
+func refLater06(next func(*st06) error, s *st06) {
+	c := &st06{resp: s.resp}
+	s.later = append(s.later, "{")
+	if err := next(c); err != nil {
+		s.later = append(append(s.later, c.log...), "ERR")
+	} else {
+		s.later = append(append(s.later, c.log...), c.later...)
+	}
+	s.later = append(s.later, "}")
 }
 
 var errRef06 = errors.New("ref error")
@@ -507,15 +598,25 @@ func refRun06(seqs [][]rule06, rules []rule06, k func(*st06) error, s *st06) err
 				return err
 			}
 			return next(s)
+		case 5:
+			refLater06(next, s)
+			return nil
+		case 6:
+			refLater06(next, s)
+			return next(s)
 		default:
 			var ls [2][]string
+			var lt []string
 			for i := 0; i < 2; i++ {
 				c := &st06{resp: s.resp}
 				if err := next(c); err != nil {
 					c.log = append(c.log, "ERR")
+				} else {
+					lt = append(lt, c.later...)
 				}
 				ls[i] = c.log
 			}
+			s.later = append(s.later, lt...)
 			s.log = append(s.log, "[")
 			s.log = append(s.log, ls[0]...)
 			s.log = append(s.log, "|")
@@ -555,7 +656,7 @@ func runC06(r *Run) {
 					}
 				}
 				if r.Rng.Intn(3) != 0 {
-					s = append(s, rule06{act: fmt.Sprintf("w%d", []int{0, 2, 3, 3, 4, 4}[r.Rng.Intn(6)]*1000+r.Rng.Intn(20))})
+					s = append(s, rule06{act: fmt.Sprintf("w%d", []int{0, 2, 3, 3, 4, 4, 5, 5, 5, 6}[r.Rng.Intn(10)]*1000+r.Rng.Intn(20))})
 				}
 				for j := r.Rng.Intn(3); j > 0; j-- {
 					s = append(s, plain())
@@ -673,7 +774,11 @@ func runC06(r *Run) {
 		if rr := qCtx.R(); rr != nil {
 			resp = fmt.Sprint(rr.Rcode)
 		}
-		out := "ok " + strings.Join(lg.ev, ",") + " resp=" + resp
+		later := drain06(lg) // the kept continuations run now, after the top-level Exec has returned
+		if len(later) > 0 {
+			r.Count("continuations run after their wrapper returned")
+		}
+		out := "ok " + strings.Join(append(append([]string(nil), lg.ev...), later...), ",") + " resp=" + resp
 		if err != nil {
 			out = "err " + strings.Join(lg.ev, ",")
 		}
@@ -686,7 +791,7 @@ func runC06(r *Run) {
 		if ref.resp >= 0 {
 			rresp = fmt.Sprint(ref.resp)
 		}
-		want := "ok " + strings.Join(ref.log, ",") + " resp=" + rresp
+		want := "ok " + strings.Join(append(append([]string(nil), ref.log...), ref.later...), ",") + " resp=" + rresp
 		if rerr != nil {
 			want = "err " + strings.Join(ref.log, ",")
 		}
@@ -744,5 +849,5 @@ func runC06(r *Run) {
 			r.Fail("the sequence did not execute as its rules say", map[string]any{"program": line, "config": config, "got": out, "want": want})
 		}
 	}
-	r.Finish("1..4 sequences built bottom-up (later ones jump/goto earlier ones), 0..5 rules each, 0..3 matchers per rule (true/false/error/response-present/first-time-asked, a third negated with '!' in three spellings; each matcher written as `$tag`, as an inline `type args` matcher built through a registered quick setup, as `$tag args` configured through QuickConfigureMatch, or the stock `_true`/`_false`, one way per matcher and program with occasional exceptions), actions: plain (log only / answer the query / drop the response / error), accept, reject, return, jump, goto, wrappers that continue / stop / post-process / run the continuation twice / run it concurrently on two copies; a quarter of the programs are built from blocks of 2..4 adjacent rules that repeat one condition whose value the actions change (the `!has_resp -> primary; !has_resp -> secondary` idiom), so every rule must evaluate its own matchers on the state left by its predecessors; a quarter are if/else programs (2..5 rules over an alphabet of one or two conditions, every occurrence negated or not independently, half of the rules the exact complement of the rule before, conditions mostly inline), so the same matcher text occurs in one sequence with both polarities; rendered to rule text and loaded by sequence.NewSequence; non-trivial = uses jump/goto/return/wrapper, a repeated state-dependent condition or a matcher together with its negation in one sequence, and logs more than 2 events")
+	r.Finish("1..4 sequences built bottom-up (later ones jump/goto earlier ones), 0..5 rules each, 0..3 matchers per rule (true/false/error/response-present/first-time-asked, a third negated with '!' in three spellings; each matcher written as `$tag`, as an inline `type args` matcher built through a registered quick setup, as `$tag args` configured through QuickConfigureMatch, or the stock `_true`/`_false`, one way per matcher and program with occasional exceptions), actions: plain (log only / answer the query / drop the response / error), accept, reject, return, jump, goto, wrappers that continue / stop / post-process / run the continuation twice / run it concurrently on two copies / return at once (or continue) and run the kept continuation on a copy in a goroutine that the harness releases only after the top-level Exec has returned, one kept continuation after the other, nested ones after their parent, their logs appended as `{...}` blocks and compared with the continuation semantics (the same remaining rules incl. the pending jump returns, whenever it is run); a quarter of the programs are built from blocks of 2..4 adjacent rules that repeat one condition whose value the actions change (the `!has_resp -> primary; !has_resp -> secondary` idiom), so every rule must evaluate its own matchers on the state left by its predecessors; a quarter are if/else programs (2..5 rules over an alphabet of one or two conditions, every occurrence negated or not independently, half of the rules the exact complement of the rule before, conditions mostly inline), so the same matcher text occurs in one sequence with both polarities; rendered to rule text and loaded by sequence.NewSequence; non-trivial = uses jump/goto/return/wrapper, a repeated state-dependent condition or a matcher together with its negation in one sequence, and logs more than 2 events")
 }
